@@ -166,7 +166,7 @@ def bad_values(draw, t):
             # an integral float: equal to (and hashing like) a valid int, still not an integer
             n = draw(st.one_of(st.sampled_from([0, 1, 7, 100, hi, lo]), st.integers(max(lo, -(2 ** 31)), min(hi, 2 ** 31))))
             return (-0.0 if n == 0 and draw(st.booleans()) else float(n)), "float-integral"
-        return draw(st.sampled_from([(hi + 1, "range+1"), (lo - 1, "range-1"), (2 ** 70, "huge"), (-(2 ** 70), "huge"),
+        return draw(st.sampled_from([(hi + 1, "range+1"), (lo - 1, "range-1"), (2 ** 70, "huge"), (-(2 ** 70), "huge"), ({"__pow10__": 5000}, "huge-repr"),
                                      (1.5, "float"), (None, "none"), ("1", "str"), (b"\x01", "bytes"), ([1], "list")]))
     if k in R.FLOATS:
         opts = [(None, "none"), ("1.0", "str"), ([1.0], "list"), (b"\x00" * 4, "bytes")]
@@ -187,9 +187,16 @@ def bad_values(draw, t):
             opts.append(("x" * 256, "prefix-overflow"))
         if k in ("STRING", "STRING2"):
             opts.append(("x" * 65536, "prefix-overflow"))
+        if k == "STRING2":
+            opts.append(("a\U0001F600b", "multi-unit"))    # not a 2-byte character: the count and the data would disagree
         return draw(st.sampled_from(opts))
     if k == "STRINGN":
-        return draw(st.sampled_from([(None, "none"), (5, "int"), ("x" * 65536, "prefix-overflow")]))
+        opts = [(None, "none"), (5, "int"), ("x" * 65536, "prefix-overflow")]
+        if t.get("cs", 1) == 1:
+            opts.append(("caf\u00e9", "multi-unit"))         # not a 1-byte character in the type's encoding
+        if t.get("cs", 1) == 2:
+            opts.append(("a\U0001F600b", "multi-unit"))
+        return draw(st.sampled_from(opts))
     if k == "nbytes":
         return draw(st.sampled_from([(None, "none"), (5, "int")]))
     if k == "ip":
@@ -273,7 +280,11 @@ def bad_values(draw, t):
 
 
 def _materialise(t, v):
-    """bad struct dict marker -> real dict with None keys; container marker -> bytes / bytearray / tuple"""
+    """bad struct dict marker -> real dict with None keys; container marker -> bytes / bytearray / tuple; an int too long to print"""
+    if isinstance(v, dict) and "__pow10__" in v:
+        return 10 ** v["__pow10__"]
+    if isinstance(v, list) and any(isinstance(x, dict) and "__pow10__" in x for x in v):
+        return [_materialise(None, x) if isinstance(x, dict) and "__pow10__" in x else x for x in v]
     if isinstance(v, dict) and "__container__" in v:
         return {"bytes": bytes, "bytearray": bytearray, "tuple": tuple}[v["__container__"]](v["items"])
     if isinstance(v, dict) and "__dict__" in v:
@@ -297,6 +308,13 @@ def _int_twin(v):
     return v, False
 
 
+def _r(v):
+    try:
+        return repr(v)
+    except Exception:
+        return f"<{type(v).__name__} whose repr() raises>"
+
+
 def check_encode_bad(t, v, label):
     from pycomm3.exceptions import DataError
     sig = kind_sig(t)
@@ -317,9 +335,9 @@ def check_encode_bad(t, v, label):
     except Exception as e:
         if where(e) == "harness":
             raise
-        return [Disc(f"encode.foreign.{type(e).__name__}.{where(e)}", f"type={t} value={v!r} ({label}): {e!r}"[:700])]
+        return [Disc(f"encode.foreign.{type(e).__name__}.{where(e)}", f"type={t} value={_r(v)[:200]} ({label}): {e!r}"[:700])]
     return [Disc(f"silent.encode.{sig}.{label.split('.')[0] if sig.startswith(('array', 'struct')) else label}",
-                 f"type={t} out-of-domain value={v!r} ({label}) was encoded to {out!r}"[:700])]
+                 f"type={t} out-of-domain value={_r(v)[:200]} ({label}) was encoded to {out!r}"[:700])]
 
 
 def _encode_star(t, v):
@@ -466,6 +484,38 @@ def run_job(ctx, job):
                 except Exception as e:
                     discs.append(Disc("unbound.raises", f"{name}[None] over {k} whole elements raised {e!r}"))
                 ctx.case(("unbound", name, k), k > 0, ["unbound-whole"])
+                for d in discs:
+                    ctx.violation(d, "decode1", {"t": t, "buf": buf})
+        # zero-width element types: an unbounded array of them has no defined length; decode must end (with DataError), not spin
+        import signal
+
+        class _Spin(BaseException):
+            pass
+
+        def _alarm(*a):
+            raise _Spin()
+        for zt, label in ((T("array", len=0, el=T("USINT"), via="factory"), "USINT[0]"), (T("nbytes", n=0), "n_bytes(0)"),
+                          (T("array", len=None, el=T("array", len=0, el=T("UINT"), via="factory"), via="factory"), "UINT[0][None]")):
+            t = T("array", len=None, el=zt, via="factory")
+            for buf in (b"", b"\x01\x02\x03"):
+                old_h = signal.signal(signal.SIGALRM, _alarm)
+                signal.setitimer(signal.ITIMER_REAL, 3.0)
+                discs = []
+                try:
+                    try:
+                        C.lib_decode(t, buf)
+                    finally:
+                        signal.setitimer(signal.ITIMER_REAL, 0)
+                        signal.signal(signal.SIGALRM, old_h)
+                except _Spin:
+                    discs.append(Disc("nonterminating.decode.zero-width-element", f"{label}[None].decode({buf!r}) did not return within 3 s"))
+                except MemoryError:
+                    discs.append(Disc("nonterminating.decode.zero-width-element", f"{label}[None].decode({buf!r}) allocated without bound"))
+                except Exception as e:
+                    from pycomm3.exceptions import DataError as _DE
+                    if not isinstance(e, _DE):
+                        discs.append(Disc(f"decode.foreign.{type(e).__name__}.zero-width", f"{label}[None].decode({buf!r}): {e!r}"))
+                ctx.case(("zero-width", label, len(buf)), True, ["unbound-zero-width"])
                 for d in discs:
                     ctx.violation(d, "decode1", {"t": t, "buf": buf})
         # element types whose wire size is not a plain fixed-width number: fixed-capacity strings (LEN + data area),
